@@ -251,6 +251,20 @@ let rdonly line =
   let ret = match serialize_into t (if sz = N0 then n_of_int 64 else sz) with Some (r, _) -> string_of_n r | None -> "UB" in
   Printf.sprintf "size=%s ser=%s getters=ok" (string_of_n sz) ret
 
+let rt l cap line =
+  let t = item_of_sexp line in
+  match serialize_alloc t with
+  | None -> "UB"
+  | Some ((ret, _), enc) ->
+      let buf = enc @ [n_of_int 0xFF; N0] in
+      Printf.sprintf "%s -> %s" (hex_of_bytes enc)
+        (match load l cap buf with
+         | LFault -> "FAULT"
+         | LErr (c, p, _) -> Printf.sprintf "err %s %s" (lerr_s c) (string_of_n p)
+         | LOk (t', rd) ->
+             let same = (match serialize_alloc t' with Some (_, enc') -> enc' = enc | None -> false) in
+             Printf.sprintf "ok %s %s same=%d" (string_of_n rd) (sexp_of_item t') (if same then 1 else 0))
+
 let ser line =
   let t = item_of_sexp line in
   let sz = ssize t in
@@ -441,6 +455,7 @@ let () =
     | "dec1" -> dec1 | "enc" -> enc | "encdec" -> encdec
     | "load" -> load_ (arg 2) (arg 3)
     | "load_spec" -> load_spec_ (arg 2) (arg 3)
+    | "rt" -> rt (arg 2) (arg 3)
     | "rdonly" -> rdonly | "dec1_spec" -> dec1_spec | "ser_spec" -> ser_spec
     | "hist" -> hist (arg 2) (arg 3) Sys.argv.(4) (arg 5)
     | "fault" -> fault_ (arg 2) (arg 3)
